@@ -174,8 +174,7 @@ def rule_switch_indirection(ctx: Ctx, out: Collector) -> None:
             if not raw:
                 continue
             # the switch resolver itself (writes switch_results) is not a consumer
-            if any(isinstance(x, ast.Call) and isinstance(x.func, ast.Attribute) and x.func.attr == 'set_switch_result'
-                   for x in ast.walk(m.node)):
+            if _is_switch_resolver(ctx, m):
                 continue
             # reads node results keyed by the loop variable, or rewrites the predecessor list
             names = {x.id for x in ast.walk(node.target) if isinstance(x, ast.Name)}
@@ -214,6 +213,29 @@ def rule_switch_indirection(ctx: Ctx, out: Collector) -> None:
                         '(switch_results[p].node_id): readiness and argument delivery disagree about which node feeds the consumer')
     if n < 2:
         raise AnalysisError(f'only {n} predecessor loops found (SW-3 anchors vanished)')
+
+
+def _writes_switch_result(unit: FuncUnit) -> bool:
+    return any(isinstance(x, ast.Call) and isinstance(x.func, ast.Attribute) and x.func.attr == 'set_switch_result'
+               for x in ast.walk(unit.node))
+
+
+def _is_switch_resolver(ctx: Ctx, m: FuncUnit, depth: int = 0) -> bool:
+    """m records the switch decision itself, or is a helper used only by functions that do."""
+    if _writes_switch_result(m):
+        return True
+    if depth >= 2:
+        return False
+    callers = []
+    for other in ctx.manager_class().methods.values():
+        if other is m:
+            continue
+        env = FuncEnv.of(ctx.p, other)
+        for n in env.own_nodes():
+            if isinstance(n, ast.Call) and any(t[0] == 'func' and t[1] is m for t in env.resolve_call(n)):
+                callers.append(other)
+                break
+    return bool(callers) and all(_is_switch_resolver(ctx, c, depth + 1) for c in callers)
 
 
 def _returns_raw_predecessors(ctx: Ctx, unit: FuncUnit) -> bool:
